@@ -24,6 +24,8 @@ Model: `NrfModel/Net/Node.lean` (`nodeWrite` = `_write`, `ackWait` = its wait lo
                  deadline.
 * `C13_live_partial` closed system, loss-free, two hops: see the end of the file.
 * `C13_live_closed_partial` the same with `L3Contracts` discharged (`l3contracts`, `NrfProofs/L3Discharge.lean`).
+* `C13_live` / `C13_live_closed` closed system, loss-free, tree routes of ANY length ≥ 2 (C04: ≤ 8 hops), types
+                 65..191 that the destination queues: `write()` returns `True`; induction over the route in NrfProofs/C13Hops*.lean.
 -/
 import NrfProofs.C13Ack
 import NrfProofs.C13Trace
@@ -31,6 +33,7 @@ import NrfProofs.C13Example
 import NrfProofs.C13Live
 import NrfProofs.C05Example3
 import NrfProofs.L3Discharge
+import NrfProofs.C13HopsExample
 
 namespace Nrf.Props.C13
 open Nrf Nrf.Net Nrf.Spec Nrf.Proofs Nrf.Props.C04
@@ -358,7 +361,8 @@ example : let s : NetState := { nodes := [{ a := nodeSpec [], frameBuf := ⟨{ m
     the origin reads the NETWORK_ACK, `_net_update()` returns 193, and **`write()` returns `True`**;
     moreover the destination's queue has gained exactly that message and no other queue changed.
 
-    Missing for the general `C13_live` (hence `_partial`): routes of 3..8 hops (the induction over the
+    (Routes of any length: `C13_live` / `C13_live_closed` at the end of this file.)
+    Missing here for the general `C13_live` (hence `_partial`): routes of 3..8 hops (the induction over the
     route needs, per router, the nested run of its successor *and* the later relay of the returning
     NETWORK_ACK found in its own RX FIFO; the two-hop case has neither a relay nor a second level of
     nesting); schedules other than `runOthers`; system types 128..191; radios that received frames
@@ -476,5 +480,231 @@ example : ∃ s1,
       rcases this with rfl | rfl | rfl <;> decide)
     (by decide) (by decide) (by decide)
     ⟨by decide, by intro g hg; cases hg⟩).2.2.2
+
+/-! ## live: the acknowledgement comes back over a route of any length
+
+What happens (worked out on the model; replayed on the real code on 3- and 4-hop chains, and by the
+correspondence runs of `./check C13` over 1..8 hops): the scheduling point of
+`send()` lies before the transmission, so a router that has forwarded the frame restores listening
+and returns to its `_net_update()` loop; its successor runs inside the router's *next* `read()`, i.e.
+while the router is suspended on the call stack **listening**.  The NETWORK_ACK of the last router
+therefore finds every router on the way back in RX mode with an empty RX FIFO; each relays it (a
+frame for another node, type 193: no acknowledgement business) when its own `read()` resumes.  The
+induction (NrfProofs/C13HopsRoute.lean: `HoldingA` → `ArrivedA`, from the last router backwards) carries
+"the node before me is suspended, listening, FIFO empty, has not taken this acknowledgement as its last
+packet" → "the node before me holds exactly the acknowledgement; the destination got the frame; all else quiet". -/
+
+/-- **Liveness of the NETWORK_ACK round trip over a tree route of any length** — closed system with the
+    schedule of `runOthers`, loss-free (`faults = []` is part of `NetOk`), under the driver contracts
+    `L3Contracts`.  In a tree network in which every node listens on its tree addresses (`NetOk`), nobody
+    has address `0o4444`, all RX FIFOs are empty, node `a` writes a single-frame message (≤ 24 bytes) of an
+    acknowledged type — a user type 65..127, or a system type 129, 132..147, 151..191 when the destination
+    does not return system messages to the caller of `update()` (`ret_sys_msg = False`, the default of
+    `RF24Network`; the six types 128, 130, 131, 148, 149, 150 are left out: consumed, rewritten, fragment types,
+    or — 131 — ending the `_net_update()` call) — for `d`, `dist (tree a) d ≥ 2` hops away (C04: at most 8); every node of the tree
+    route — origin, routers, destination — is present and has not received anything yet (`lastRx =
+    none`); the destination's queue accepts the frame.  Then:
+    * the type is acknowledged, the origin's rule is to wait, and along the route **exactly the last
+      router decides to emit** a NETWORK_ACK (the positions `i < dist` whose `_write` takes the `emit`
+      decision are `[dist - 1]`);
+    * **`write()` returns `True`** — the first hop accepts the frame; inside the first `read()` of the
+      origin's wait loop the whole route runs, nested: each router forwards, its successor runs inside
+      its next `read()`, the last router delivers to `d`, emits the NETWORK_ACK (the destination taking
+      its frame at the scheduling point of that transmission), and the acknowledgement is relayed back
+      by each suspended router as its `read()` resumes; the origin reads it in that same first
+      `_net_update()`;
+    * the destination's queue has gained **exactly that message**, and the queue of every other node —
+      routers and origin included — is unchanged (`DeliveredOnce`).
+
+    Still open (not needed for the statement above): schedules other than `runOthers`; route nodes whose
+    radio received frames before (`lastRx`: the proof only needs that the duplicate filter cannot hit,
+    i.e. the PID sequence of the senders). -/
+theorem C13_live (hc : L3Contracts) (cfg : AddrCfg) (hcfg : CfgOk cfg) (L : LinkCfg)
+    (tree : Nat → List Nat) (s : NetState) (a : Nat) (d : List Nat) (ty : Int) (msg : Bytes)
+    (hok : NetOk cfg L tree s) (hcur : s.cur = a) (hact : s.active = [a]) (ha : a < s.nodes.length)
+    (hsize : s.nodes.length ≤ 20000) (hndef : ∀ i, val (tree i) ≠ NETWORK_DEFAULT_ADDR)
+    (h2 : 2 ≤ dist (tree a) d)
+    (hroute : ∀ k, k ≤ dist (tree a) d →
+      ∃ j, j < s.nodes.length ∧ tree j = hops k (tree a) d ∧ (s.radioAt j).lastRx = none)
+    (hquiet : ∀ i, i < s.nodes.length → (s.radioAt i).rxFifo = [])
+    (hty : 65 ≤ ty ∧ ty ≤ 191)
+    (hsys : ty ≤ 127 ∨ ((∀ j, j < s.nodes.length → tree j = d → (s.nodeAt j).retSysMsg = false) ∧
+      ty ≠ 128 ∧ ty ≠ 130 ∧ ty ≠ 131 ∧ ty ≠ 148 ∧ ty ≠ 149 ∧ ty ≠ 150))
+    (hlen : msg.length ≤ MAX_FRAG_SIZE)
+    (hmax : msg.length ≤ (s.nodeAt a).maxMessageLength)
+    (hacc : ∀ j, j < s.nodes.length → tree j = d →
+      Accepts (s.nodeAt j).queue (wireCopy (callerFrame (tree a) d s.nextId ty msg))) :
+    AckType ty.toNat ∧ originRule (tree a) d ty.toNat = .await ∧
+    (List.range (dist (tree a) d)).filter (fun i =>
+        decide (ackAction (nodeSpec (hops i (tree a) d)) ty.toNat (val d) (roleSendType i) (val (tree a)) = .emit))
+      = [dist (tree a) d - 1] ∧
+    ∃ s1 jd, jd < s.nodes.length ∧ tree jd = d ∧
+      nexec (apiNetWrite (val d) ty msg AUTO_ROUTING) s =
+        (.ok (true, callerFrame (tree a) d s.nextId ty msg), s1) ∧
+      DeliveredOnce s.nodes s1.nodes jd (val (tree a)) ty.toNat msg := by
+  have hat : AckType ty.toNat := by unfold AckType; omega
+  have hxn : IsNode (tree a) := (hok.node a ha).1
+  obtain ⟨jd, hjd, htjd, _⟩ := hroute (dist (tree a) d) (Nat.le_refl _)
+  rw [hops_dist] at htjd
+  have hdn : IsNode d := by have := (hok.node jd hjd).1; rw [htjd] at this; exact this
+  have hxd : tree a ≠ d := by
+    intro e; rw [e, dist_self] at h2; omega
+  have hy1d : nextHopSpec (tree a) d ≠ d := by
+    intro e
+    have := dist_nextHop hxd
+    rw [e, dist_self] at this; omega
+  refine ⟨hat, ?_, ?_, ?_⟩
+  · unfold originRule
+    rw [if_pos ⟨hat, hy1d⟩]
+  · have := (C13_once (tree a) d hxn hdn ty.toNat hat).2
+    rw [if_pos h2] at this
+    exact this
+  · have hsys' : ∀ j, j < s.nodes.length → tree j = d → Hops.SysOk ty.toNat (s.nodeAt j).retSysMsg := by
+      intro j hj htj
+      unfold Hops.SysOk MAX_USR_DEF_MSG_TYPE
+      rcases hsys with h | ⟨h1, h3⟩
+      · refine ⟨Or.inl (by omega), ?_⟩
+        omega
+      · refine ⟨Or.inr (h1 j hj htj), ?_⟩
+        omega
+    exact Hops.live_route hc cfg hcfg L tree s a d ty msg hok hcur hact ha hsize hndef h2 hroute hquiet hty hsys' hlen
+      hmax hacc
+
+/-- non-vacuity: every hypothesis other than the driver contracts holds for the concrete chain
+    `0o0 — 0o1 — 0o11 — 0o111` of `NrfProofs/C13HopsExample.lean`, the great-grandchild writing `[9, 8, 7]` with
+    type 100 to the master over three hops (running the model: `True`, air log data → data → data →
+    NETWORK_ACK → NETWORK_ACK, the master's queue holds the message) -/
+example (hc : L3Contracts) : ∃ s1,
+    nexec (apiNetWrite (val []) 100 [9, 8, 7] AUTO_ROUTING) Example.Hops.four =
+      (.ok (true, callerFrame [1, 1, 1] [] 8 100 [9, 8, 7]), s1) ∧
+    DeliveredOnce Example.Hops.four.nodes s1.nodes 0 (val [1, 1, 1]) 100 [9, 8, 7] := by
+  obtain ⟨_, _, _, s1, jd, hjd, htjd, hw, hdel⟩ :=
+    C13_live hc {} (by decide) Example.L Example.Hops.tree4 Example.Hops.four 3 [] 100 [9, 8, 7]
+      Example.Hops.four_ok rfl rfl (by decide) (by decide) Example.Hops.four_ndef (by decide)
+      (by
+        intro k hk
+        have hd : dist (Example.Hops.tree4 3) [] = 3 := by decide
+        rw [hd] at hk
+        have : k = 0 ∨ k = 1 ∨ k = 2 ∨ k = 3 := by omega
+        rcases this with rfl | rfl | rfl | rfl
+        · exact ⟨3, by decide, by decide, by decide⟩
+        · exact ⟨2, by decide, by decide, by decide⟩
+        · exact ⟨1, by decide, by decide, by decide⟩
+        · exact ⟨0, by decide, by decide, by decide⟩)
+      (by
+        intro i hi
+        rcases Example.Hops.four_lt i hi with rfl | rfl | rfl | rfl <;> decide)
+      (by decide) (Or.inl (by decide)) (by decide) (by decide)
+      (by
+        intro j hj htj
+        rcases Example.Hops.four_lt j hj with rfl | rfl | rfl | rfl
+        · exact ⟨by decide, by intro g hg; cases hg⟩
+        · exact absurd htj (by decide)
+        · exact absurd htj (by decide)
+        · exact absurd htj (by decide))
+  have : jd = 0 := by
+    rcases Example.Hops.four_lt jd hjd with rfl | rfl | rfl | rfl
+    · rfl
+    · exact absurd htjd (by decide)
+    · exact absurd htjd (by decide)
+    · exact absurd htjd (by decide)
+  subst this
+  exact ⟨s1, hw, hdel⟩
+
+/-- **`C13_live` unconditionally**: `l3contracts : L3Contracts` (NrfProofs/L3Discharge.lean) proves the six
+    driver contracts from the driver model over the chip and the air.  Closed `runOthers` system,
+    loss-free, `NetOk` network with all RX FIFOs empty and the route's nodes present and fresh, a type in
+    65..191 that the destination queues (all user types; system types but 128, 130, 131, 148..150 at a
+    destination with `ret_sys_msg = False`), ≤ 24 bytes, tree route of `k ≥ 2` hops from `tree a` to `d`: `write()` at `a` returns `True`;
+    exactly the last router decides to emit the NETWORK_ACK; the destination's queue gained exactly the
+    message; every router's and the origin's queue is unchanged. -/
+theorem C13_live_closed (cfg : AddrCfg) (hcfg : CfgOk cfg) (L : LinkCfg)
+    (tree : Nat → List Nat) (s : NetState) (a : Nat) (d : List Nat) (ty : Int) (msg : Bytes)
+    (hok : NetOk cfg L tree s) (hcur : s.cur = a) (hact : s.active = [a]) (ha : a < s.nodes.length)
+    (hsize : s.nodes.length ≤ 20000) (hndef : ∀ i, val (tree i) ≠ NETWORK_DEFAULT_ADDR)
+    (h2 : 2 ≤ dist (tree a) d)
+    (hroute : ∀ k, k ≤ dist (tree a) d →
+      ∃ j, j < s.nodes.length ∧ tree j = hops k (tree a) d ∧ (s.radioAt j).lastRx = none)
+    (hquiet : ∀ i, i < s.nodes.length → (s.radioAt i).rxFifo = [])
+    (hty : 65 ≤ ty ∧ ty ≤ 191)
+    (hsys : ty ≤ 127 ∨ ((∀ j, j < s.nodes.length → tree j = d → (s.nodeAt j).retSysMsg = false) ∧
+      ty ≠ 128 ∧ ty ≠ 130 ∧ ty ≠ 131 ∧ ty ≠ 148 ∧ ty ≠ 149 ∧ ty ≠ 150))
+    (hlen : msg.length ≤ MAX_FRAG_SIZE)
+    (hmax : msg.length ≤ (s.nodeAt a).maxMessageLength)
+    (hacc : ∀ j, j < s.nodes.length → tree j = d →
+      Accepts (s.nodeAt j).queue (wireCopy (callerFrame (tree a) d s.nextId ty msg))) :
+    AckType ty.toNat ∧ originRule (tree a) d ty.toNat = .await ∧
+    (List.range (dist (tree a) d)).filter (fun i =>
+        decide (ackAction (nodeSpec (hops i (tree a) d)) ty.toNat (val d) (roleSendType i) (val (tree a)) = .emit))
+      = [dist (tree a) d - 1] ∧
+    ∃ s1 jd, jd < s.nodes.length ∧ tree jd = d ∧
+      nexec (apiNetWrite (val d) ty msg AUTO_ROUTING) s =
+        (.ok (true, callerFrame (tree a) d s.nextId ty msg), s1) ∧
+      DeliveredOnce s.nodes s1.nodes jd (val (tree a)) ty.toNat msg :=
+  C13_live l3contracts cfg hcfg L tree s a d ty msg hok hcur hact ha hsize hndef h2 hroute hquiet hty hsys hlen hmax
+    hacc
+
+/-- non-vacuity (the chain `0o0 — 0o1 — 0o11 — 0o111`, three hops), without any open hypothesis -/
+example : ∃ s1 jd, jd < 4 ∧ Example.Hops.tree4 jd = [] ∧
+    nexec (apiNetWrite (val []) 100 [9, 8, 7] AUTO_ROUTING) Example.Hops.four =
+      (.ok (true, callerFrame [1, 1, 1] [] 8 100 [9, 8, 7]), s1) ∧
+    DeliveredOnce Example.Hops.four.nodes s1.nodes jd (val [1, 1, 1]) 100 [9, 8, 7] :=
+  (C13_live_closed {} (by decide) Example.L Example.Hops.tree4 Example.Hops.four 3 [] 100 [9, 8, 7]
+      Example.Hops.four_ok rfl rfl (by decide) (by decide) Example.Hops.four_ndef (by decide)
+      (by
+        intro k hk
+        have hd : dist (Example.Hops.tree4 3) [] = 3 := by decide
+        rw [hd] at hk
+        have : k = 0 ∨ k = 1 ∨ k = 2 ∨ k = 3 := by omega
+        rcases this with rfl | rfl | rfl | rfl
+        · exact ⟨3, by decide, by decide, by decide⟩
+        · exact ⟨2, by decide, by decide, by decide⟩
+        · exact ⟨1, by decide, by decide, by decide⟩
+        · exact ⟨0, by decide, by decide, by decide⟩)
+      (by
+        intro i hi
+        rcases Example.Hops.four_lt i hi with rfl | rfl | rfl | rfl <;> decide)
+      (by decide) (Or.inl (by decide)) (by decide) (by decide)
+      (by
+        intro j hj htj
+        rcases Example.Hops.four_lt j hj with rfl | rfl | rfl | rfl
+        · exact ⟨by decide, by intro g hg; cases hg⟩
+        · exact absurd htj (by decide)
+        · exact absurd htj (by decide)
+        · exact absurd htj (by decide))).2.2.2
+
+/-- non-vacuity for a system type: the same chain, type 160 (the nodes are `RF24Network` objects,
+    `ret_sys_msg = False`) -/
+example : ∃ s1 jd, jd < 4 ∧ Example.Hops.tree4 jd = [] ∧
+    nexec (apiNetWrite (val []) 160 [9, 8, 7] AUTO_ROUTING) Example.Hops.four =
+      (.ok (true, callerFrame [1, 1, 1] [] 8 160 [9, 8, 7]), s1) ∧
+    DeliveredOnce Example.Hops.four.nodes s1.nodes jd (val [1, 1, 1]) 160 [9, 8, 7] :=
+  (C13_live_closed {} (by decide) Example.L Example.Hops.tree4 Example.Hops.four 3 [] 160 [9, 8, 7]
+      Example.Hops.four_ok rfl rfl (by decide) (by decide) Example.Hops.four_ndef (by decide)
+      (by
+        intro k hk
+        have hd : dist (Example.Hops.tree4 3) [] = 3 := by decide
+        rw [hd] at hk
+        have : k = 0 ∨ k = 1 ∨ k = 2 ∨ k = 3 := by omega
+        rcases this with rfl | rfl | rfl | rfl
+        · exact ⟨3, by decide, by decide, by decide⟩
+        · exact ⟨2, by decide, by decide, by decide⟩
+        · exact ⟨1, by decide, by decide, by decide⟩
+        · exact ⟨0, by decide, by decide, by decide⟩)
+      (by
+        intro i hi
+        rcases Example.Hops.four_lt i hi with rfl | rfl | rfl | rfl <;> decide)
+      (by decide)
+      (Or.inr ⟨by
+        intro j hj _
+        rcases Example.Hops.four_lt j hj with rfl | rfl | rfl | rfl <;> rfl, by decide⟩)
+      (by decide) (by decide)
+      (by
+        intro j hj htj
+        rcases Example.Hops.four_lt j hj with rfl | rfl | rfl | rfl
+        · exact ⟨by decide, by intro g hg; cases hg⟩
+        · exact absurd htj (by decide)
+        · exact absurd htj (by decide)
+        · exact absurd htj (by decide))).2.2.2
 
 end Nrf.Props.C13
